@@ -360,7 +360,7 @@ func (d *Driver) run(replay string) int {
 			o := outcomes[filepath.Base(c.file)]
 			if o != nil && (o.status == "assert" || o.status == "panic") {
 				confirmed = append(confirmed, c)
-			} else if c.v.Scheduled && c.spec != nil && eng.ReplayConcrete(c.spec, c.v, Limits{MaxSteps: 20_000_000, MaxDecisions: 4000, MaxCallDepth: 400, MaxConcretize: 70}) {
+			} else if (c.v.Scheduled || strings.HasPrefix(c.v.Msg, "lock discipline:")) && c.spec != nil && eng.ReplayConcrete(c.spec, c.v, Limits{MaxSteps: 20_000_000, MaxDecisions: 4000, MaxCallDepth: 400, MaxConcretize: 70}) {
 				// schedule-dependent counterexample: Go's own scheduler cannot be forced to follow the
 				// recorded interleaving, so it is confirmed by concrete re-execution of the real code
 				// in the engine (all inputs fixed to the model's values, recorded schedule)
@@ -369,7 +369,7 @@ func (d *Driver) run(replay string) int {
 				if o != nil {
 					st = o.status
 				}
-				fmt.Printf("symgo: schedule-dependent counterexample for %s confirmed by concrete re-execution under the recorded schedule (native run under Go's scheduler: %s)\n", c.v.Harness, st)
+				fmt.Printf("symgo: counterexample for %s that a native run cannot observe (schedule-dependent, or lock state) confirmed by concrete re-execution of the real code in the engine (native run: %s)\n", c.v.Harness, st)
 				confirmed = append(confirmed, c)
 			} else {
 				unconfirmed = append(unconfirmed, c)
